@@ -189,6 +189,20 @@ BUILT = {
         note='Trusted: TLC, numpy. Bounded: shapes up to 6x3 (quick) / 6x6 with axis lengths in {1,2,3,4,6}; windows passed as arrays (Hann / Welch named windows are '
              'conformed through the array path only); numpy >= 2 runtime (the only one installed).',
         technique='TLA+ spec (Psd.tla: exact integer spectrum, band partition and trapezoid-weight laws) checked by TLC; emitted cases replayed into prysm.interferogram PSD routines'),
+    'C20': dict(
+        spec='Jones.tla, ModQ.tla',
+        text='Jones.tla builds every element of prysm.x.polarization in exact Q(i) arithmetic (pairs of ModQ rationals) on a Pythagorean menu of orientations and '
+             'retardances (rational cos and sin, retardances given by their half angle so that the vortex retarder is exact too), the Mueller map '
+             'U (J* (x) J) U^H and the Pauli coefficients. TLC checks for every element: retarders incl. the vortex retarder at every retardance are unitary; '
+             'polarisers are idempotent and obey Malus\' law against every angle; rotating an element equals conjugating with the rotation matrix; '
+             'M(J K) = M(J) M(K) and M(K J) = M(K) M(J) against arbitrary Gaussian-integer matrices; a unitary J has an orthogonal real M with M00 = 1; the Pauli '
+             'coefficients reconstruct J. The pinned vortex retarder is a variant that must violate Unitary. Each state is exported with its exact J, M and '
+             'Pauli coefficients and compared with the constructors (scalar and batched shapes (2,), (2,3)), jones_to_mueller (scalar and broadcast), '
+             'pauli_coefficients / pauli_spin_matrix; jones_adapter-wrapped focus, unfocus, both fixed-sampling routines and angular_spectrum are compared '
+             'with the component-wise calls.',
+        note='Trusted: TLC, ModQ interpreter. Bounded: 4 (quick) / 7 Pythagorean orientations, 3 / 5 retardances, charges 1..2 / 1..3, 2 / 4 arbitrary matrices; '
+             'irrational angles are not evaluated.',
+        technique='TLA+ spec (Jones.tla: exact Q(i) matrices, group laws) checked by TLC; exact element matrices replayed into prysm.x.polarization'),
 }
 
 NOT_BUILT_REASON = 'not built yet in this round (specification planned in DESIGN.md section 4; never decided by another technique)'
